@@ -125,6 +125,7 @@ type SpecDB struct {
 	GhostVia   map[string]string      // ghost variable -> Go type whose holders may change it
 	Immutables []Immutable
 	Guards     []*Guard
+	FieldFns   map[string]string // <pkg path>.<Struct>.<field> -> spec function computed by calls of that function-typed field
 }
 
 // Guard: the fields of a struct that may only be accessed while its mutex is held.
@@ -136,7 +137,7 @@ type Guard struct {
 }
 
 func NewSpecDB() *SpecDB {
-	return &SpecDB{Contracts: map[string]*Contract{}, UFuns: map[string]*UFun{}, Defines: map[string]*Define{}, SortAlias: map[string][2]string{}, SortDecls: map[string][][2]string{}, Ghosts: map[string][2]string{}, GhostVia: map[string]string{}}
+	return &SpecDB{Contracts: map[string]*Contract{}, UFuns: map[string]*UFun{}, Defines: map[string]*Define{}, SortAlias: map[string][2]string{}, SortDecls: map[string][][2]string{}, Ghosts: map[string][2]string{}, GhostVia: map[string]string{}, FieldFns: map[string]string{}}
 }
 
 var (
@@ -231,6 +232,15 @@ func (db *SpecDB) LoadContractFile(path, defaultPkg string) error {
 				return fail(l.n, "bad ghost declaration %q", rest)
 			}
 			db.Ghosts[f[0]] = [2]string{f[1], pkg}
+			cur = nil
+		case "fieldfn":
+			// fieldfn <Struct>.<field> = <ufun>: a call through the function-typed field computes the named
+			// uninterpreted function of (pointer to the struct, arguments) and has no effect (assumption, recorded)
+			f := strings.Fields(rest)
+			if len(f) != 3 || f[1] != "=" {
+				return fail(l.n, "bad fieldfn declaration %q", rest)
+			}
+			db.FieldFns[pkg+"."+f[0]] = f[2]
 			cur = nil
 		case "immutable":
 			// immutable <Struct> except <pkg-path-prefix>...: no function outside the excepted packages stores
